@@ -3,11 +3,15 @@
 pub mod sym;
 pub mod k_entity;
 pub mod t_probe;
+pub mod common;
+pub mod world;
+pub mod t_manip;
 
 pub type Harness = fn();
 pub fn registry() -> Vec<(&'static str, Harness)> {
     let mut v: Vec<(&'static str, Harness)> = Vec::new();
     k_entity::register(&mut v);
     t_probe::register(&mut v);
+    t_manip::register(&mut v);
     v
 }
